@@ -108,6 +108,29 @@ class Body:
                 post.append(b); stack.pop()
         return {b: i for i, b in enumerate(reversed(post))}
 
+    def natural_loops(self):
+        """head -> set of blocks of the natural loop(s) of that head (back edge = edge to a block
+        that is not later in reverse post-order); rpo-reachable, non-cleanup blocks only"""
+        if getattr(self, "_loops", None) is not None: return self._loops
+        rpo = self.rpo(); succ = self.succ(); preds = self.preds()
+        loops = {}
+        for b in rpo:
+            for t in succ[b]:
+                if t in rpo and rpo[t] <= rpo[b]:
+                    body = loops.setdefault(t, {t})
+                    st = [b]
+                    while st:
+                        x = st.pop()
+                        if x in body: continue
+                        body.add(x)
+                        for p in preds[x]:
+                            if p in rpo: st.append(p)
+        self._loops = loops
+        return loops
+
+    def has_loops(self):
+        return bool(self.natural_loops())
+
     def return_blocks(self):
         return [i for i, b in enumerate(self.blocks) if b["term"]["k"] == "return"]
 
